@@ -86,6 +86,11 @@ def generate(seed, tier):
     if r.random() < 0.4:
         sc['byz'] = {'kind': 'auth_malformed', 'seed': r.randrange(2 ** 31)}
         sc['meta']['byz'] = 'auth_malformed'
+    if r.random() < 0.25:
+        # D is (or is easily pushed) under load: it asks for a COOKIE, so the legitimate peer is served through the COOKIE retry path,
+        # also after the hostile input stopped (half-open IKE_SAs left by the hostile source are never reaped)
+        sc['controller_attrs'] = {'B': {'cookie_threshold': r.choice([0, 0, 1, 2])}}
+        sc['meta']['cookie_threshold'] = sc['controller_attrs']['B']['cookie_threshold']
     if r.random() < 0.5:
         # a stray datagram aimed at the SPI pair of a handshake in progress, delivered between D's IKE_SA_INIT response and P's IKE_AUTH request
         sc['halfopen_stray'] = {'seed': r.randrange(2 ** 31), 'p': r.choice([0.5, 1.0])}
